@@ -53,7 +53,8 @@ def weave(repo, out):
     # W1: crate plumbing
     lib = W.file("lib.rs")
     first = min(n["span"][0] for n in lib.nodes if n["parent"] == -1)
-    lib.insert(first, "#![allow(unused_imports, unused_variables, dead_code, unused_mut, unused_braces, unused_parens, non_snake_case, unused_assignments)]\n"
+    # allocator_api: only to *name* the allocator parameter of std's HashMap in an assume_specification (get_mut)
+    lib.insert(first, "#![feature(allocator_api)]\n#![allow(unused_imports, unused_variables, dead_code, unused_mut, unused_braces, unused_parens, non_snake_case, unused_assignments)]\n"
                       "#[allow(unused_imports)] use vstd::prelude::*;\npub mod verif_prelude;\npub mod verif_specs;\n", rule="W1")
     W.add_file("verif_prelude.rs", open(os.path.join(VERIF, "specs", "prelude.rs")).read())
     vocab = sorted(glob.glob(os.path.join(VERIF, "specs", "vocab", "*.rs")))
